@@ -537,4 +537,39 @@ theorem locTextXml_eq (t l : Option Str) (b : Bool) : Gen.loctext_xml_encode ⟨
 theorem gen_string_json (s : Str) : Gen.str_json_encode ⟨some s⟩ = .ok (some (pyJsonQuote s)) := by
   simp [Gen.str_json_encode, pyJsonDumps]
 
+/-! ### `UALocalizedText.json_encode`: generated = hand model, with and without a locale override -/
+
+theorem textKey_eq : "{\"Text\":".toList = ['{', '"', 'T', 'e', 'x', 't', '"', ':'] := by decide
+theorem localeKey_eq : ",\"Locale\":".toList = [',', '"', 'L', 'o', 'c', 'a', 'l', 'e', '"', ':'] := by decide
+
+/-- without an override the generated encoder is the model's `ltJson` of the value's own text and locale -/
+theorem locTextJson_eq (t l : Option Str) : Gen.loctext_json_encode ⟨t, l⟩ none = .ok (ltJson t l) := by
+  unfold Gen.loctext_json_encode ltJson
+  rw [textKey_eq, localeKey_eq]
+  cases t <;> cases l <;> simp [bindE, pyJsonDumps]
+
+/-- with an override the Locale member is the override — whatever locale the value holds — and the Text is the value's own -/
+theorem locTextJson_override (t l : Option Str) (o : Str) : Gen.loctext_json_encode ⟨t, l⟩ (some o) = .ok (ltJson t (some o)) := by
+  unfold Gen.loctext_json_encode ltJson
+  rw [textKey_eq, localeKey_eq]
+  cases t <;> cases l <;> simp [bindE, pyJsonDumps]
+
+/-- the generated encoder agrees with `jsonEncode` on LocalizedText values -/
+theorem locTextJson_model (fs : Int → Str) (t l : Option Str) :
+    (Gen.loctext_json_encode ⟨t, l⟩ none).map some = jsonEncode fs (.locText t l) := by
+  rw [locTextJson_eq, jsonEncode]; rfl
+
+open Opcua.C10 in
+/-- C10's `locText_valid` restated for the generated encoder: what `UALocalizedText.json_encode()` — as the source reads now —
+    returns is one JSON object whose Text / Locale members are exactly the value's text and locale, for every string -/
+theorem gen_locText_valid (t : Str) (l : Option Str) :
+    ∃ j, Gen.loctext_json_encode ⟨some t, l⟩ none = .ok j ∧
+      parseJson j = some (.obj ((kText, .str t) :: (match l with | none => [] | some x => [(kLocale, .str x)]))) := by
+  obtain ⟨j, hj, hp⟩ := C10.locText_valid (fun _ => []) t l
+  have h2 : jsonEncode (fun _ => []) (.locText (some t) l) = .ok (some (ltJson (some t) l)) := by simp [jsonEncode]
+  rw [h2] at hj
+  have hj' : ltJson (some t) l = j := by injection hj with h; injection h
+  subst hj'
+  exact ⟨_, locTextJson_eq _ _, hp⟩
+
 end Opcua.Tie
